@@ -160,6 +160,9 @@ func run(c *core.Ctx) int {
 	if want("conc") {
 		d.phaseConc()
 	}
+	if want("concsp") {
+		d.phaseConcSP()
+	}
 	c.Extra("phase_determinism_s", time.Since(c.Start).Seconds())
 	if want("corrupt") {
 		d.phaseCorrupt()
@@ -777,20 +780,31 @@ func (d *driver) buildOtherFlavour() string {
 		c.Inconclusive("version-flavour:no-go-toolchain")
 		return ""
 	}
-	src := filepath.Join(core.VerifDir(), "harness")
-	if _, err := os.Stat(filepath.Join(src, "cmd", "c13")); err != nil {
-		if s := os.Getenv("VERIF_HARNESS_SRC"); s != "" {
-			src = s
-		} else {
-			c.Inconclusive("version-flavour:no-harness-source")
-			return ""
+	src := ""
+	for _, cand := range []string{os.Getenv("VERIF_HARNESS_SRC"), filepath.Join(core.VerifDir(), "harness"), "/verif/harness"} {
+		if cand == "" {
+			continue
+		}
+		if _, err := os.Stat(filepath.Join(cand, "cmd", "c13")); err == nil {
+			src = cand
+			break
 		}
 	}
-	if s := os.Getenv("VERIF_HARNESS_SRC"); s != "" {
-		src = s
+	if src == "" {
+		c.Inconclusive("version-flavour:no-harness-source")
+		return ""
 	}
 	out := filepath.Join(d.work, "vcheck-otherversion")
-	cmd := exec.Command(goBin, "build", "-tags", "verif", "-ldflags", "-X github.com/tetratelabs/wazero/internal/version.version=other", "-o", out, "./cmd/c13")
+	args := []string{"build"}
+	if r := os.Getenv("VERIF_REPO"); r != "" && r != "/repo" {
+		// ./check built this binary against another checkout through a generated modfile
+		mf := filepath.Join(core.VerifDir(), ".build", "C13", "go.mod")
+		if _, err := os.Stat(mf); err == nil {
+			args = append(args, "-modfile="+mf)
+		}
+	}
+	args = append(args, "-tags", "verif", "-ldflags", "-X github.com/tetratelabs/wazero/internal/version.version=other", "-o", out, "./cmd/c13")
+	cmd := exec.Command(goBin, args...)
 	cmd.Dir = src
 	cmd.Env = append(os.Environ(), "GOFLAGS=-mod=mod", "GOPROXY=off", "GOSUMDB=off", "GOTOOLCHAIN=local")
 	if b, err := cmd.CombinedOutput(); err != nil {
